@@ -108,47 +108,72 @@ def first_status(prog, bi, start):
 
 @rule("C10", "R10.2", "error -> status table: AlreadyExists, DoesNotExist and the same-project error map to their gRPC codes everywhere", floor=8)
 def r10_2(prog, out):
-    cls = error_closures(prog)
     rows = 0
-    for cid in cls:
-        ci = prog.info(cid)
-        b = ci.body
-        ety = b.local_ty(2)
-        adt = prog.facts.adt(ety)
-        if adt is None:
-            continue
-        vnames = [v["name"] for v in adt["variants"]]
-        # switch on the discriminant of the parameter
-        arms = None
-        for blk in b.blocks:
-            t = blk.term
-            if t.k == "switch":
-                for s in blk.stmts:
-                    if s.k == "assign" and s.rv.k == "discr" and s.rv.place.local == 2:
-                        arms = (blk.idx, dict(t.arms), t.otherwise)
-        table = {}
-        if arms is None:
-            codes = first_status(prog, ci, 0)
-            for v in vnames:
-                table[v] = codes
-        else:
-            sw_bb, a, other = arms
-            for i, v in enumerate(vnames):
-                tgt = a.get(i, other)
-                table[v] = first_status(prog, ci, ci._skip_false(tgt)) if tgt is not None else set()
+    seen_rows = set()
+
+    def judge(bid, ety, table, site):
+        nonlocal rows
         for v, codes in table.items():
             want = REQUIRED_ROWS.get(v)
             if want is None:
                 continue
+            b = prog.facts.body(bid)
+            key = "%s:%s::%s" % (prog.short(b.root or bid), short_ty(ety), v)
+            n = 1
+            while key in seen_rows:
+                n += 1
+                key = "%s:%s::%s#%d" % (prog.short(b.root or bid), short_ty(ety), v, n)
+            seen_rows.add(key)
             rows += 1
-            key = "%s:%s::%s" % (prog.short(b.root or cid), short_ty(ety), v)
-            site = prog.loc(cid)
             if codes == {want}:
                 out.holds(key, site, "%s -> %s" % (v, want))
             elif not codes:
                 out.undecided(key, site, "no status constructor found for %s" % v)
             else:
                 out.violation(key, site, "%s::%s is answered with %s, the property requires %s" % (short_ty(ety), v, sorted(codes), want))
+
+    def is_error_enum(ty):
+        return bool(ty) and ty.startswith("crate::") and ty.endswith("Error") and prog.facts.adt(ty) is not None
+
+    closures_with_switch = set()
+    # every `match` on one of the crate's error enums -- in a map_err closure or spelled out in the handler
+    for b in prog.facts.lib_bodies():
+        if b.file.startswith("/") or not b.file.startswith("src/api/"):
+            continue
+        bi = prog.info(b.id)
+        for blk in b.blocks:
+            if blk.cleanup or blk.idx not in bi.cfg.reach:
+                continue
+            t = blk.term
+            if t.k != "switch":
+                continue
+            for st in blk.stmts:
+                if st.k == "assign" and st.rv.k == "discr" and t.discr is not None and t.discr.place is not None and st.lhs.is_local() \
+                        and st.lhs.local == t.discr.place.local:
+                    ety = b.place_ty(st.rv.place)
+                    ety = ety[1:] if ety and ety.startswith("&") else ety
+                    if not is_error_enum(ety):
+                        continue
+                    vnames = [v["name"] for v in prog.facts.adt(ety)["variants"]]
+                    a, other = dict(t.arms), t.otherwise
+                    table = {}
+                    for i, v in enumerate(vnames):
+                        tgt = a.get(i, other)
+                        table[v] = first_status(prog, bi, bi._skip_false(tgt)) if tgt is not None else set()
+                    if b.kind == "Closure":
+                        closures_with_switch.add(b.id)
+                    judge(b.id, ety, table, bi.loc(blk.idx))
+    # closures fn(Error) -> Status that do not look at the variant: every variant gets the same answer
+    for cid in error_closures(prog):
+        if cid in closures_with_switch:
+            continue
+        ci = prog.info(cid)
+        ety = ci.body.local_ty(2)
+        adt = prog.facts.adt(ety)
+        if adt is None:
+            continue
+        codes = first_status(prog, ci, 0)
+        judge(cid, ety, {v["name"]: codes for v in adt["variants"]}, prog.loc(cid))
     # the helper used by most handlers (get_subscription / get_topic_internal): same table through fn bodies
     if rows < 8:
         raise CheckBroken("expected >= 8 rows of the error table, found %d" % rows)
@@ -373,3 +398,102 @@ def r10_7(prog, out):
                             break
                     out.violation(key, bi.loc(site), "%s can answer successfully without sending %s to the actor: the actor's state (wake-up hand-on, batch limit, deleted flag, "
                                   "serialisation with other requests) is bypassed on that path" % (prog.short(bid), v["name"]), ["bb%d (%s)" % (x, bi.loc(x)) for x in esc][:8])
+
+
+# outcome discards that are part of the design: (body, what) -> reason
+DISCARD_OK = {
+    ("push_loop::dispatch_message", "Subscription::acknowledge_messages"): "push dispatch, best effort: a failed ack means the subscription is gone",
+    ("push_loop::dispatch_message", "Subscription::modify_ack_deadlines"): "push dispatch, best effort: a failed nack means the subscription is gone",
+}
+
+
+@rule("C10", "R10.8", "no outcome of a manager, handle or actor operation is thrown away: every Result is propagated, matched or returned", floor=90)
+@rule("C01", "R10.8", "no outcome of a manager, handle or actor operation is thrown away: every Result is propagated, matched or returned", floor=90)
+@rule("C16", "R10.8", "no outcome of a manager, handle or actor operation is thrown away: every Result is propagated, matched or returned", floor=90)
+def r10_8(prog, out):
+    """ALREADY_EXISTS / NOT_FOUND / a closed mailbox reach the client only if every layer hands the error on.  A Result that
+    is dropped (`let _ = ..`, `..ok();`, an unused value) or replaced by a default turns a failed operation into a
+    success answer."""
+    from fate import result_fate
+    import re
+    n = 0
+    for b in prog.facts.lib_bodies():
+        if b.file.startswith("/"):
+            continue
+        bi = prog.info(b.id)
+        srcs = []
+        for bb, t in bi.calls():
+            if (t.callee.local or t.callee.res_local) and t.dest is not None and t.dest.is_local() and not t.callee.path.endswith("Future::poll"):
+                if (b.local_ty(t.dest.local) or "").startswith("std::result::Result<"):
+                    srcs.append((bb, t.dest.local, prog.short(prog.qual(b, t.callee.target))))
+        for a in bi.awaits:
+            r = bi._final_result_local(a)
+            if r is not None and (b.local_ty(r) or "").startswith("std::result::Result<"):
+                what = a.fut_ty or "?"
+                m = re.match(r"^\{coroutine:(.*)::\{closure#0\}\}$", what)
+                what = prog.short(m.group(1)) if m else short_ty(what.split("<")[0])
+                srcs.append((a.poll_bb, r, what))
+        owner = re.sub(r"(::\{closure#\d+\})+$", "", prog.short(b.id))
+        for bb, local, what in srcs:
+            n += 1
+            fa = result_fate(bi, local)
+            key = "outcome:%s:%s" % (owner, what)
+            if fa == "consumed" or fa == "panics":
+                out.holds(key, bi.loc(bb), "propagated / matched / returned", nontrivial=False)
+            elif (owner, what) in DISCARD_OK:
+                out.holds(key, bi.loc(bb), "listed discard: " + DISCARD_OK[(owner, what)], nontrivial=False)
+            elif fa == "swallowed":
+                out.violation(key, bi.loc(bb), "the error of %s is replaced by a default value in %s: a failed operation is answered as a success" % (what, owner))
+            else:
+                out.violation(key, bi.loc(bb), "the result of %s is thrown away in %s: a failure (ALREADY_EXISTS, NOT_FOUND, closed mailbox ..) is answered as a success" % (what, owner))
+
+
+@rule("C10", "R10.9", "the push configuration stored for a subscription is the one in the request (endpoint and attributes, dropped only when empty)", floor=2)
+def r10_9(prog, out):
+    from props.c13 import emptiness_regions
+    A = prog.anchors
+    sl = Slicer(prog)
+    ctor = A.ty("PushConfig") + "::new"
+    proto = "crate::pubsub_proto::PushConfig"
+    n = 0
+    for b in prog.facts.lib_bodies():
+        if b.file.startswith("/"):
+            continue
+        bi = prog.info(b.id)
+        for bb, t in bi.calls(lambda c: c.target == ctor):
+            n += 1
+            name = prog.short(b.id)
+            # endpoint
+            s_ep = sl.of(b.id, t.args[0])
+            key = "stored-push-config:%s:endpoint" % name
+            if (proto, "push_endpoint") in s_ep.fields:
+                out.holds(key, bi.loc(bb), "endpoint <- request.push_config.push_endpoint")
+            else:
+                out.violation(key, bi.loc(bb), "the stored push endpoint is not the requested one (%s)" % sorted(f[1] for f in s_ep.fields)[:4])
+            # attributes: Some(requested map) unless the requested map is empty
+            key = "stored-push-config:%s:attributes" % name
+            arg = t.args[-1]
+            s_at = sl.of(b.id, arg)
+            if (proto, "attributes") not in s_at.fields:
+                out.violation(key, bi.loc(bb), "the stored push attributes are not derived from the requested ones")
+                continue
+            empty, nonempty = emptiness_regions(prog, bi)
+            bad = None
+            o = bi.trace(arg)
+            locs = [o.data] if o.kind == "local" and isinstance(o.data, int) else ([arg.place.local] if arg.place is not None else [])
+            for l in locs:
+                for (db, di) in bi.defs.get(l, []):
+                    if di < 0:
+                        continue
+                    st = bi.stmt(db, di)
+                    if st.rv.k == "agg" and st.rv.j.get("adt") == "std::option::Option" and st.rv.j.get("variant") == "None" and db not in empty:
+                        bad = db
+            filt = {c.split("::")[-1] for c in s_at.calls} & {"filter", "take", "skip", "retain", "remove", "truncate", "drain", "pop"}
+            if bad is not None:
+                out.violation(key, bi.loc(bad), "requested push attributes are dropped although the map is not empty")
+            elif filt:
+                out.violation(key, bi.loc(bb), "the requested push attributes are filtered (%s) before they are stored" % sorted(filt))
+            else:
+                out.holds(key, bi.loc(bb), "attributes <- the requested map (None only when it is empty)")
+    if n == 0:
+        raise CheckBroken("PushConfig::new is never called")
